@@ -20,7 +20,7 @@ class JavaCompiler(BaseCompiler):
         return ['javac', '-version']
 
     def get_compiler_cmd(self):
-        return ['javac', '-nowarn', self.input_name]
+        return ['javac', '-nowarn', '-Xmaxerrs', '0', self.input_name]
 
     def get_filename(self, match):
         return match[0]
